@@ -202,7 +202,7 @@ fn faulted<H: Hasher>(ch: &mut Chooser, ctx: &mut Ctx, cfg: Cfg) {
     };
     let mut proof = clone_bp(&honest);
     let mut idx = positions.clone();
-    let kind = ch.weighted("fault", &[4, 4, 2, 2, 2, 2, 2, 3, 3, 3, 3, 1, 2, 2]);
+    let kind = ch.weighted("fault", &[4, 4, 2, 2, 2, 2, 2, 3, 3, 3, 3, 1, 2, 2, 4]);
     let what: String = match kind {
         0 => {
             let i = ch.index("f.leaf", proof.leaves.len());
@@ -331,6 +331,31 @@ fn faulted<H: Hasher>(ch: &mut Chooser, ctx: &mut Ctx, cfg: Cfg) {
             ctx.fault("positions_permuted_without_leaves");
             "positions permuted, leaves left in place".into()
         },
+        14 => {
+            // coordinated: one more queried position with an ARBITRARY claimed leaf; the node
+            // vectors stay those of the honest opening (or, half the time, are those of the
+            // honest opening of the enlarged set, so that only the claimed leaf is wrong)
+            let free: Vec<usize> = (0..n).filter(|p| !idx.contains(p)).collect();
+            if free.is_empty() {
+                ctx.skipped = Some("no_free_position");
+                return;
+            }
+            let q = free[ch.index("f.newq", free.len())];
+            let at = ch.index("f.at", idx.len() + 1);
+            idx.insert(at, q);
+            let with_nodes = ch.chance("f.honestnodes?", 1, 2);
+            if with_nodes {
+                match tree.prove_batch(&idx) {
+                    Ok(p) => proof = p,
+                    Err(_) => return,
+                }
+                proof.leaves[at] = other_digest::<H>(salt ^ 5);
+            } else {
+                proof.leaves.insert(at, other_digest::<H>(salt ^ 5));
+            }
+            ctx.fault("position_added_with_arbitrary_leaf");
+            format!("position {q} added at {at} with an arbitrary claimed leaf ({})", if with_nodes { "nodes of the enlarged honest opening" } else { "nodes untouched" })
+        },
         _ => {
             if proof.leaves.len() < 2 {
                 ctx.skipped = Some("single_position");
@@ -404,7 +429,7 @@ pub fn spec() -> CheckSpec {
         id: "C10",
         level: "fault_enumeration",
         build: "serial (+ overflow-checking build for one arm)",
-        rule: "fault-free arm, enumerated completely: for trees of 2, 4, 8 and 16 leaves EVERY non-empty position set (3 + 15 + 255 + 65535 per hasher; quick: 2 hashers, thorough: all 6), half of the runs with a taped permutation of the position list: prove_batch / verify_batch / get_root, claimed leaves in list order, into_paths equal to the single openings (each verified), from_paths back to the batch opening. Fault arm, sampled: trees of depth 1..10, 1..255 positions with adjacency patterns (siblings, cousins, all-left, right edge), sorted or not, then one fault on the opening or the position list in transit (14 kinds); the same arm also runs in the overflow-checking build inside an isolated worker. Oracle: Ok => every claimed leaf at a queried in-range position equals the committed leaf and the shape is the honest one; never a panic. Non-trivial = a fault fired or positions permuted (all runs of the fault arm); distinct = distinct event-log digests.".into(),
+        rule: "fault-free arm, enumerated completely: for trees of 2, 4, 8 and 16 leaves EVERY non-empty position set (3 + 15 + 255 + 65535 per hasher; quick: 2 hashers, thorough: all 6), half of the runs with a taped permutation of the position list: prove_batch / verify_batch / get_root, claimed leaves in list order, into_paths equal to the single openings (each verified), from_paths back to the batch opening. Fault arm, sampled: trees of depth 1..10, 1..255 positions with adjacency patterns (siblings, cousins, all-left, right edge), sorted or not, then one fault on the opening or the position list in transit (15 kinds, incl. the coordinated 'one more position with an arbitrary claimed leaf'); the same arm also runs in the overflow-checking build inside an isolated worker. Oracle: Ok => every claimed leaf at a queried in-range position equals the committed leaf and the shape is the honest one; never a panic. Non-trivial = a fault fired or positions permuted (all runs of the fault arm); distinct = distinct event-log digests.".into(),
         interleaving_measure: "distinct (tree, position list, fault) histories".into(),
         real: vec!["crypto::MerkleTree (new, prove, prove_batch, verify, verify_batch)", "crypto::BatchMerkleProof (get_root, into_paths, from_paths)", "all six hashers"],
         stub: vec!["nothing; the oracle is a naive comparison with the committed leaves"],
